@@ -42,6 +42,23 @@ def is_succ(e):
     return z3.is_app(e) and e.decl().kind() == z3.Z3_OP_ADD and e.num_args() == 2 and z3.is_int_value(e.arg(1)) and e.arg(1).as_long() == 1
 
 
+def _consts_of(t):
+    """Uninterpreted constants occurring in a term."""
+    out, seen, stack = [], set(), [t]
+    while stack:
+        x = stack.pop()
+        if x.get_id() in seen:
+            continue
+        seen.add(x.get_id())
+        if z3.is_quantifier(x):
+            stack.append(x.body())
+        elif z3.is_app(x):
+            if z3.is_const(x) and x.decl().kind() == z3.Z3_OP_UNINTERPRETED:
+                out.append(x)
+            stack.extend(x.children())
+    return out
+
+
 def ok_pattern(t, j):
     """A term usable as an E-matching pattern: uninterpreted/select applications only, mentioning the bound variable."""
     if not z3.is_app(t) or z3.is_const(t):
@@ -756,7 +773,12 @@ class Executor:
                 guards.append(guard)
                 for c in g.ifs:
                     guards.append(truth(self.ev1(c, s), s))
+            marks = self.capture_marks(s)
             body = truth(self.ev1(e.elt, s), s)
+            if self.needs_capture(s, marks) and len(s.fresh) == marks[0] and s.heap is marks[3]:
+                # (a body that allocates ghost containers - e.g. a clause mentioning a contracted callee whose result is a
+                #  fresh dict - reads them back within the same body: handled by the heap terms themselves, as before)
+                (body,) = self.skolemize_elements(s, marks, binders, z3.And(*guards), [body])
         finally:
             self.pure_depth -= 1
             for _ in range(pushed):
@@ -802,12 +824,12 @@ class Executor:
             j, guard, elem, view = self.comp_binder(g, s)
             self.bind_target(g.target, elem, s)
             conds = [truth(self.ev1(c, s), s) for c in g.ifs]
-            n_fresh0, p0, heap0 = len(s.fresh), len(s.pc), s.heap
+            marks = self.capture_marks(s)
             out = self.ev1(e.elt, s)
             out_t = to_v(out, s)
             ety = out.ty if isinstance(out, Val) else ANY
-            if len(s.fresh) > n_fresh0:
-                out_t = self.skolemize_elements(s, n_fresh0, p0, heap0, j, z3.And(guard, *conds), out_t)
+            if self.needs_capture(s, marks):
+                (out_t,) = self.skolemize_elements(s, marks, [j], z3.And(guard, *conds), [out_t])
         finally:
             self.pure_depth -= 1
         st.pc[:] = s.pc
@@ -839,27 +861,61 @@ class Executor:
         )
         return r
 
-    def skolemize_elements(self, s, n_fresh0, p0, heap0, j, guard, out_t):
-        """The element expression of a comprehension allocated objects: ONE object per index.  Each reference r allocated
-        while evaluating the element becomes a Skolem function F_r(j) of the index; the facts recorded about r are
-        asserted for every index in range; the family is injective and disjoint from every other allocation."""
+    def capture_marks(self, s):
+        return (len(s.fresh), len(smt.CREATED), len(s.pc), s.heap)
+
+    def needs_capture(self, s, marks):
+        return len(s.fresh) > marks[0] or len(smt.CREATED) > marks[1]
+
+    def skolemize_elements(self, s, marks, binders, guard, terms):
+        """The element expression of a comprehension / quantifier body created per-element entities: objects it ALLOCATED
+        (one object per index) and other fresh constants (results of impure callees, opaque values, ...).  Each of them
+        becomes a Skolem function of the bound index/indices; the facts recorded about them are asserted for every index in
+        range; allocated families are injective and disjoint from every other allocation.  Returns the terms with the
+        constants replaced.  (Before this, all elements shared ONE constant: "all elements are the same object" was provable.)"""
+        n_fresh0, n_created0, p0, heap0 = marks
         if s.heap is not heap0:
-            raise Unsupported("comprehension element allocates a container or writes a field")
+            raise Unsupported("comprehension element allocates a container, writes a field or calls a callee with effects")
         new_fresh = s.fresh[n_fresh0:]
+        fresh_ids = {r.get_id() for r in new_fresh}
+        others = [c for c in smt.CREATED[n_created0:] if c.get_id() not in fresh_ids]
         new_pc = s.pc[p0:]
+        used = set()
+        for t in list(terms) + new_pc:
+            if t is not None and z3.is_expr(t):
+                used |= {v.get_id() for v in _consts_of(t)}
+        others = [c for c in others if c.get_id() in used]
+        if not new_fresh and not others:
+            return list(terms)
+        dom = [b.sort() for b in binders]
         pairs, extra, pats = [], [], []
         for r in new_fresh:
-            f = z3.Function(smt.fresh_name("sk"), z3.IntSort(), V)
-            inv = z3.Function(smt.fresh_name("skinv"), V, z3.IntSort())
-            pairs.append((r, f(j)))
-            extra += [inv(f(j)) == j, smt.SkFam(f(j)) == smt.next_family()]
-            pats.append(f(j))
+            f = z3.Function(smt.fresh_name("sk"), *dom, V)
+            pairs.append((r, f(*binders)))
+            pats.append(f(*binders))
+            extra.append(smt.SkFam(f(*binders)) == smt.next_family())
+            if len(binders) == 1:
+                inv = z3.Function(smt.fresh_name("skinv"), V, z3.IntSort())
+                extra.append(inv(f(*binders)) == binders[0])
+        for c in others:
+            f = z3.Function(smt.fresh_name("skc"), *dom, c.sort())
+            pairs.append((c, f(*binders)))
+            if c.sort() == V:
+                pats.append(f(*binders))
         zero = [smt.SkFam(r) == 0 for r in new_fresh]
-        facts = [z3.substitute(f, *pairs) for f in new_pc if not any(f.eq(z) for z in zero)] + extra
+        births = [smt.Birth(r) for r in new_fresh]
+        facts = []
+        for f in new_pc:
+            if any(f.eq(z) for z in zero) or (z3.is_eq(f) and any(f.arg(0).eq(bt) for bt in births)):
+                continue
+            facts.append(z3.substitute(f, *pairs))
+        facts += extra
         del s.pc[p0:]
         del s.fresh[n_fresh0:]
-        s.assume(z3.ForAll([j], z3.Implies(guard, z3.And(*facts)), patterns=pats))
-        return z3.substitute(out_t, *pairs)
+        if facts:
+            body = z3.Implies(guard, z3.And(*facts))
+            s.assume(z3.ForAll(list(binders), body, patterns=pats) if pats else z3.ForAll(list(binders), body))
+        return [z3.substitute(t, *pairs) if (t is not None and z3.is_expr(t)) else t for t in terms]
 
     def ev_SetComp(self, e, st):
         if len(e.generators) > 2:
@@ -875,11 +931,14 @@ class Executor:
                 js.append(j)
                 guards.append(guard)
                 guards += [truth(self.ev1(c, s), s) for c in g.ifs]
+            marks = self.capture_marks(s)
             out = self.ev1(e.elt, s)
             out_t = to_v(out, s)
             ety = out.ty if isinstance(out, Val) else ANY
             if len(s.fresh) > n_fresh_in:
                 raise Unsupported("set comprehension allocating objects per element")
+            if self.needs_capture(s, marks):
+                (out_t,) = self.skolemize_elements(s, marks, js, z3.And(*guards), [out_t])
         finally:
             self.pure_depth -= 1
         st.pc[:] = s.pc
@@ -904,11 +963,14 @@ class Executor:
             self.bind_target(g.target, elem, s)
             guards = [guard] + [truth(self.ev1(c, s), s) for c in g.ifs]
             n_fresh_in = len(s.fresh)
+            marks = self.capture_marks(s)
             kv = self.ev1(e.key, s)
             vv = self.ev1(e.value, s)
             if len(s.fresh) > n_fresh_in:
                 raise Unsupported("dict comprehension allocating objects per element")
             k_t, v_t = to_v(kv, s), to_v(vv, s)
+            if self.needs_capture(s, marks):
+                k_t, v_t = self.skolemize_elements(s, marks, [j], z3.And(*guards), [k_t, v_t])
             kty = kv.ty if isinstance(kv, Val) else ANY
             vty = vv.ty if isinstance(vv, Val) else (INT if isinstance(vv, IVal) else BOOL if isinstance(vv, BVal) else ANY)
         finally:
